@@ -1,6 +1,8 @@
 import CwMt.Model.Route
 import CwMt.Gen.Router
 import CwMt.Gen.Lift
+import CwMt.Proofs.Engine
+import CwMt.Proofs.EngineB
 /-
   C17 — Every message and query reaches exactly the module configured for it.
   Property theorems only. They are stated over the tables that checklib/tr_router.py regenerates from
@@ -15,8 +17,11 @@ import CwMt.Gen.Lift
   `FeatureSet.harness` is the configuration the correspondence harness is compiled with
   (staking, stargate, cosmwasm_2_2). The `_features` versions cover every feature combination.
   Routing of *sub-messages* through the same `Router::execute` with the emitting contract as sender, and
-  rollback after a failing module, are engine facts (C02/C05); in this slice they are covered by the
-  correspondence ops `send-sub` and the predicate only.
+  rollback after a failing module, are engine facts (C02/C05). At the end of this file two of them are
+  restated over the engine model (`ext_message_reaches_module_intact`,
+  `migrate_submessages_sent_by_contract`); on the real code they are covered by the correspondence ops
+  `send-sub-from ENTRY native|lifted …` (every entry point: instantiate, execute, migrate, sudo, reply)
+  and the predicate, which demands the emitting contract as sender of every record.
 -/
 namespace CwMt.C17
 open CwMt.Route CwMt.Gen
@@ -103,5 +108,58 @@ theorem lift_keeps_envelope (f : SubField) (hf : f ∈ [SubField.id, .payload, .
 /-- R3: `CosmosMsg::Custom(Empty)` of an `Empty`-typed contract cannot be lifted: `unreachable!()`. -/
 theorem lift_custom_excluded (fs : FeatureSet) : lift fs Lift.table .custom = .diverge .unreachable := by
   rcases fs with ⟨_ | _, _ | _, _ | _⟩ <;> decide
+
+end CwMt.C17
+
+/-! ### sub-messages: the emitting entry point does not matter -/
+namespace CwMt.C17
+open CwMt.Route CwMt.Gen
+
+/-- In the routing model a sub-message returned by contract `c` is dispatched exactly like a top-level
+message of the same kind, with `c` as sender, whichever entry point (instantiate, execute, migrate,
+sudo, reply) returned it. (By construction of `subDispatch`; that the wasm module of the real code hands
+the contract address to the router in all five wrappers is what the two engine theorems below and the
+`send-sub-from` correspondence ops are for.) -/
+theorem sub_dispatch_entry_independent {A : Type} (fs : FeatureSet) (o₁ o₂ : Origin) (c : A) (k : Kind) :
+    subDispatch fs Router.execTable o₁ c k = subDispatch fs Router.execTable o₂ c k ∧
+    (subDispatch fs Router.execTable o₁ c k).sender = c ∧
+    (subDispatch fs Router.execTable o₁ c k).target = route fs Router.execTable k :=
+  ⟨rfl, rfl, rfl⟩
+
+end CwMt.C17
+
+/-! ### the same two facts over the engine model (CwMt/Model/Engine.lean) -/
+namespace CwMt.C17
+open CwMt
+variable {E : Type}
+
+/-- A message for a non-wasm, non-bank module (`.ext kind payload`: custom, staking, distribution, ibc,
+gov, stargate/any) is handed to that module's handler with the sender and the payload it was sent with,
+and the handler's outcome is the outcome; this holds at every nesting depth, because `execute` is what
+`executeSubmsg` calls for sub-messages. -/
+theorem ext_message_reaches_module_intact (cfg : Config E) (blk : Block) (fuel : Nat) (ch : Chain E)
+    (sender : Addr) (kind : ExtKind) (payload : Val) (tr : Trace) :
+    execute cfg blk (fuel + 1) ch sender (.ext kind payload) tr = (cfg.extExec kind ch blk sender payload, tr) :=
+  Engine.execute_succ_ext cfg blk fuel ch sender kind payload tr
+
+/-- `migrate`: the sub-messages of the response are processed with the migrated CONTRACT `c` as
+dispatcher (fourth argument of `processResponse`), not with the admin `sender` who signed the
+migration — the unfolding of the `wasmMigrate` arm for a permitted migration. -/
+theorem migrate_submessages_sent_by_contract (cfg : Config E) (blk : Block) (fuel : Nat) (ch : Chain E)
+    (sender : Addr) (c : String) (n : Nat) (m : Val) (tr : Trace) (cd : ContractData)
+    (hv : cfg.validAddr c = true) (hk : codeKnown cfg n = true)
+    (hc : ch.contracts.get? c = some cd) (ha : cd.admin = some sender) :
+    execute cfg blk (fuel + 1) ch sender (.wasmMigrate c n m) tr =
+      (match callContract cfg blk { ch with contracts := ch.contracts.set c { cd with codeId := n } } c (.migrate m) tr with
+       | (.ok (resp, ch₂), tr₁) =>
+         (match processResponse cfg blk fuel ch₂ c
+             (buildAppResponse c { ty := "migrate", attrs := [contractAttr c, ⟨"code_id", toString n⟩] } resp).1
+             (buildAppResponse c { ty := "migrate", attrs := [contractAttr c, ⟨"code_id", toString n⟩] } resp).2 tr₁ with
+          | (.ok (r, ch₃), tr₂) => (.ok ({ r with data := r.data.map encodeExecuteResponse }, ch₃), tr₂)
+          | other => other)
+       | (.err, tr₁) => (.err, tr₁)
+       | (.panic, tr₁) => (.panic, tr₁)
+       | (.outOfFuel, tr₁) => (.outOfFuel, tr₁)) :=
+  (EngineB.migrate_runs_new_code cfg blk fuel ch sender c n m tr cd hv hk hc ha).2.2
 
 end CwMt.C17
